@@ -66,9 +66,9 @@ let () =
                 (if in_F lines then "1" else "0") ^ " " ^ String.concat " " (List.map (fun c -> string_of_int (int_of_n c)) (html lines))
               | [] -> "ERR empty")
            | "RULES" ->
-             (* 18 numbers, punctuation string, hr style string, npieces, pieces *)
+             (* 19 numbers, punctuation string, hr style string, npieces, pieces *)
              let rec take k l = if k = 0 then ([], l) else (match l with x :: r -> let (a, b) = take (k - 1) r in (x :: a, b) | [] -> failwith "short") in
-             let (ps, rest) = take 18 args in
+             let (ps, rest) = take 19 args in
              let (punct, rest) = take_str rest in
              let (hr, rest) = take_str rest in
              (match rest with
